@@ -67,7 +67,7 @@ func c01T1(r *Run, rep *core.Report) {
 		}
 		n++
 		rep.Fn(fn(f))
-		it := &sym.Interp{P: r.P, M: r.M, MaxPaths: 200}
+		it := newInterp(r, false)
 		paths := it.Run(f)
 		okAll := len(paths) > 0
 		why := ""
